@@ -515,10 +515,29 @@ class model_sandbox:
         return False
 
 
-def run_history(plan):
+def run_history(plan, coverage=False):
     ctx = Ctx(plan, "history")
-    for s in plan["steps"]:
-        exec_step(ctx, s)
+    cov = set()
+    if coverage:
+        prefix = SRC + os.sep
+
+        def ltrace(frame, event, arg):
+            if event == "line":
+                cov.add((frame.f_code.co_filename[len(prefix):], frame.f_lineno))
+            return ltrace
+
+        def gtrace(frame, event, arg):
+            if event == "call" and frame.f_code.co_filename.startswith(prefix):
+                cov.add((frame.f_code.co_filename[len(prefix):], frame.f_lineno))
+                return ltrace
+            return None
+        sys.settrace(gtrace)
+    try:
+        for s in plan["steps"]:
+            exec_step(ctx, s)
+    finally:
+        if coverage:
+            sys.settrace(None)
     # O6: a result handed to the caller must not change afterwards (the caller never touches it)
     for rec, res, key in ctx.kept:
         try:
@@ -530,7 +549,7 @@ def run_history(plan):
     ctx.probes["module_fingerprints"] = len(ctx.fingerprints)
     if ctx.idsim.reused:
         ctx.probes["simulated_id_reuse"] = ctx.idsim.reused
-    return {"records": ctx.records, "events": [list(map(_ev, e)) for e in ctx.events], "probes": ctx.probes,
+    return {"coverage": sorted(cov), "records": ctx.records, "events": [list(map(_ev, e)) for e in ctx.events], "probes": ctx.probes,
             "disk_probes": ctx.disk.probes, "open_handles": ctx.disk.open_handles}
 
 
